@@ -10,6 +10,8 @@ import FxVerif.Proofs.C14InvQ
 import FxVerif.Proofs.C14InvS
 import FxVerif.Proofs.C14InvI
 import FxVerif.Proofs.C14InvG
+import FxVerif.Proofs.C14Gen
+import FxVerif.Proofs.C14Prog
 import FxVerif.Proofs.C14InvK
 /-!
 # C14 — account migration moves everything, once, to the address that authorised it
@@ -33,7 +35,8 @@ theorem cfg_from_code :
             wRecFrom := true, wRecTo := true, wDirFrom := true, wDirTo := true, bankAll := true,
             gProposerFrom := true, gProposerTo := true, gDepositFrom := true, gDepositTo := true,
             gVoteDeposit := true, gVoteFrom := true, gVoteTo := true, qEveryEntry := true, qByDelegator := true,
-            toParseVB := "ValidateEthereumAddress+HexToAddress", toParseSrv := "HexToAddress" } := by
+            toParseVB := "ValidateEthereumAddress+HexToAddress", toParseSrv := "HexToAddress",
+            gExportSkip := "ValuePrefixMigrateToFlag", gExportStop := false, gImportSets := true } := by
   decide
 
 /-- the bytes `ValidateBasic` hashes are prefix ++ source ++ target, in this order -/
@@ -163,6 +166,34 @@ theorem staking_validate_program_as_modelled (s : State) (frm to : Addr) :
   · simp [h1, h2, h3, h4, h5]
   · simp [h1, h2, h3, h4, h5]
 
+/-- **the gov callbacks as regenerated check lists = the hand-written reading**: interpreting what `DepositPeriodCallback`
+and `VotePeriodCallback` refuse (regenerated, in source order; the vote callback runs the deposit callback first) over both
+proposal queues gives `govRefuses` for every state and pair — a check that is dropped, or a vote callback that no longer runs
+the deposit callback, stops this from checking while the driver follows the code -/
+theorem gov_program_as_modelled (s : State) (frm to : Addr) :
+    govRefusesP cfg (Gen.C14.govDepositChecks.map parseG) (Gen.C14.govVoteChecks.map parseG) s frm to =
+      govRefuses cfg s frm to := by
+  have hd : Gen.C14.govDepositChecks.map parseG = [.proposerFrom, .proposerTo, .depositFrom, .depositTo] := by decide
+  have hv : Gen.C14.govVoteChecks.map parseG = [.depositCallback, .voteFrom, .voteTo] := by decide
+  rw [hd, hv]
+  have e1 : ∀ id, depositCbP [.proposerFrom, .proposerTo, .depositFrom, .depositTo] s frm to id = depositCb cfg s frm to id := by
+    intro id
+    unfold depositCbP depositCb
+    rw [cfg_from_code]
+    cases get s.props id with
+    | none => rfl
+    | some pr => simp [govCheck, Bool.or_assoc]
+  have e2 : ∀ id, voteCbP [.proposerFrom, .proposerTo, .depositFrom, .depositTo] [.depositCallback, .voteFrom, .voteTo] s frm to id =
+      voteCb cfg s frm to id := by
+    intro id
+    unfold voteCbP voteCb depositCb
+    rw [cfg_from_code]
+    cases get s.props id with
+    | none => rfl
+    | some pr => simp [govCheck, Bool.or_assoc]
+  unfold govRefusesP govRefuses
+  simp only [e1, e2]
+
 theorem handlerValidate_code (s : State) (frm to : Addr) :
     handlerValidate cfg s frm to "NewBankMigrate" = none ∧
     handlerValidate cfg s frm to "NewDistrStakingMigrate" = stakingValidate cfg s frm to ∧
@@ -178,13 +209,46 @@ theorem handlerValidate_code (s : State) (frm to : Addr) :
   · simp only [handlerValidate, t2, b2, Bool.false_eq_true, ↓reduceIte, beq_self_eq_true]
     exact staking_validate_program_as_modelled s frm to
   · simp only [handlerValidate, t3, b3, Bool.false_eq_true, ↓reduceIte, beq_self_eq_true]
-    rfl
+    have n1 : ("GovMigrate" == "DistrStakingMigrate") = false := by decide
+    simp only [n1, Bool.false_eq_true, ↓reduceIte, gov_program_as_modelled]
 
+
+/-- the statement lists of `DistrStakingMigrate.Execute` as read from the source (`Gen.C14.executeProgram`), parsed per
+loop: the delegation loop reads the starting info, deletes it, sets it under the target, deletes the record, sets it
+(relabelled) under the target, deletes and sets the delegations-by-validator index element; the unbonding / redelegation
+loops re-key the record and its one / two by-validator index elements and, per entry, re-point the unbonding-id index and
+rewrite the time slice -/
+theorem execute_program_from_code :
+    progOf Gen.C14.executeProgram "del" = delProg ∧
+    progOf Gen.C14.executeProgram "ubd" = ubdProg ∧ progOf Gen.C14.executeProgram "ubd.entry" = entryProg ∧
+    progOf Gen.C14.executeProgram "red" = redProg ∧ progOf Gen.C14.executeProgram "red.entry" = entryProg ∧
+    (Gen.C14.executeProgram.map parseX).all (· != .unknown) = true := by decide
+
+/-- **`DistrStakingMigrate.Execute` as regenerated program = the hand-written reading**: interpreting the store statements
+of the three iterator loops and the two entry loops (regenerated from the source on every run, every statement recognised)
+gives, for every state and pair, exactly `stakingExecute` — the function `portfolio_moved_*`, `queues_rewritten_*`, the
+invariants and the simulation are about.  The driver runs the interpretation: a dropped, added or re-ordered `Delete` /
+`Set`, a wrong key constructor or argument order, a record no longer relabelled, stops this from checking while the driver
+follows the code. -/
+theorem execute_program_as_modelled (s : State) (frm to : Addr) :
+    stakingExecuteP cfg Gen.C14.executeProgram s frm to = stakingExecute cfg s frm to := by
+  obtain ⟨e1, e2, e3, e4, e5, _⟩ := execute_program_from_code
+  have c1 : cfg.rewriteDelIdx = true := by rw [cfg_from_code]
+  have c2 : cfg.rewriteUnbId = true := by rw [cfg_from_code]
+  have c3 : cfg.qEveryEntry = true := by rw [cfg_from_code]
+  have f1 : moveDelegationP delProg frm to = moveDelegation cfg frm to := by
+    funext s p; exact moveDelegationP_eq cfg c1 frm to s p
+  have f2 : moveUbdP cfg ubdProg entryProg frm to = moveUbd cfg frm to := by
+    funext s p; exact moveUbdP_eq cfg c2 c3 frm to s p
+  have f3 : moveRedP cfg redProg entryProg frm to = moveRed cfg frm to := by
+    funext s p; exact moveRedP_eq cfg c2 c3 frm to s p
+  unfold stakingExecuteP stakingExecute
+  rw [e1, e2, e3, e4, e5, f1, f2, f3]
 
 theorem handlerExecute_code (c : Cfg) (s : State) (frm to : Addr) :
     handlerExecute c frm to s "NewBankMigrate" =
       (if bankBlocked c s frm then .error .exec else .ok (bankExecute c s frm to)) ∧
-    handlerExecute c frm to s "NewDistrStakingMigrate" = .ok (stakingExecute c s frm to) ∧
+    handlerExecute c frm to s "NewDistrStakingMigrate" = .ok (stakingExecuteP c Gen.C14.executeProgram s frm to) ∧
     handlerExecute c frm to s "NewGovMigrate" = .ok s := by
   have t1 : handlerType "NewBankMigrate" = "BankMigrate" := by decide
   have t2 : handlerType "NewDistrStakingMigrate" = "DistrStakingMigrate" := by decide
@@ -230,7 +294,8 @@ theorem handler_program_as_modelled (s : State) (frm to : Addr) (sigOk : Bool) :
   simp only [runStmts, handlerStmt, q1, q2, q3, q4, q5, q6, q7, q8, q9, q10, q11, q12, q13, q14, q15,
     beq_self_eq_true, Bool.false_eq_true, ↓reduceIte, List.findSome?, execAll,
     (handlerValidate_code _ frm to).1, (handlerValidate_code _ frm to).2.1, (handlerValidate_code _ frm to).2.2,
-    (handlerExecute_code cfg _ frm to).1, (handlerExecute_code cfg _ frm to).2.1, (handlerExecute_code cfg _ frm to).2.2]
+    (handlerExecute_code cfg _ frm to).1, (handlerExecute_code cfg _ frm to).2.1, (handlerExecute_code cfg _ frm to).2.2,
+    execute_program_as_modelled]
   by_cases h1 : recGuard cfg.recKeyFrom s frm = true
   · simp [h1]
   by_cases h2 : recGuard cfg.recKeyTo s to = true
@@ -1848,5 +1913,207 @@ example : ∃ s', migrate cfg exLater 1 11 true = .ok s' ∧
     get s'.ubds (11, 100) = some [(305, 10, 1)] ∧ get (run cfg s' [.block 300, .block 1]).ubds (11, 100) = none ∧
     balOf (run cfg s' [.block 300, .block 1]).bal 1 0 = 0 :=
   ⟨_, rfl, by decide, by decide, by decide, by decide⟩
+
+/-! ## a migration delivered as a transaction of a block -/
+
+/-- **tx_block_is_a_history**: the block that carries a migration as a signed transaction (what the driver runs for a
+`txblock` line: `ValidateBasic`, ante handler with fee payment, message server as regenerated program, end blockers) ends in
+the state of the op list `txOps` run by `run` — fee payment, migration, block, or the block alone when the transaction is
+refused before the fee is taken — so every theorem about histories (`run`) covers transactions delivered through
+`FinalizeBlock` -/
+theorem tx_block_is_a_history (s : State) (dt fee : Nat) (txSigner frm to : Addr) (sigOk : Bool) :
+    (txBlock cfg Gen.C14.handlerOrder Gen.C14.migrateHandlers s dt fee txSigner frm to sigOk).1 =
+      run cfg s (txOps cfg s dt fee txSigner frm to sigOk).1 := by
+  unfold txBlock run
+  simp only [stepP_eq_step]
+
+/-- a transaction not signed by the source's account key, or one whose source cannot pay the fee, moves nothing: the block
+is the empty block -/
+theorem tx_block_needs_source_signature (s : State) (dt fee : Nat) (txSigner frm to : Addr) (sigOk : Bool)
+    (h : txSigner ≠ frm) : (txOps cfg s dt fee txSigner frm to sigOk).1 = [.block dt] := by
+  unfold txOps
+  split
+  · rfl
+  split
+  · rfl
+  have : (txSigner != frm) = true := by simpa using h
+  simp [this]
+
+/-- non-vacuity: in `exState` the migration of 1 to 11 delivered as a transaction with fee 5 is accepted, the fee is paid by
+the source before its balances move, and a transaction signed by account 2 is refused by the ante handler -/
+example : (txOps cfg exState 1 5 1 1 11 true).2 = "ok" ∧
+    (txOps cfg exState 1 5 1 1 11 true).1 = [.send 1 feeCollector 0 5, .migrate 1 11 true, .block 1] ∧
+    (txOps cfg exState 1 5 2 1 11 true).2 = "err:ante" := by decide
+
+/-! ## genesis export / import: the one-shot records survive a restart -/
+
+/-- every operation keeps the pairing of the migration records (only an accepted migration writes them) -/
+theorem recInv_step {s : State} (h : RecInv s) (op : Op) : RecInv (step cfg s op).1 := by
+  have keep : ∀ (o : Option State), (∀ s', o = some s' → recT s' = recT s) → RecInv (ofOpt s o).1 := by
+    intro o ho
+    cases o with
+    | none => exact h
+    | some s' => exact h.of_recT (ho s' rfl)
+  cases op with
+  | send x y d n =>
+    simp only [step]
+    apply keep
+    intro s' hs
+    cases hb : sendUnlocked s.bal (lockedOf s x d) x y d n <;> simp [hb] at hs
+    subst hs; rfl
+  | mint x d n => exact h.of_recT rfl
+  | delegate d v amt rw => exact keep _ (fun s' hs => delegate_recT hs)
+  | undelegate d v amt rw => exact keep _ (fun s' hs => undelegate_recT hs)
+  | redelegate d x y amt r1 r2 => exact keep _ (fun s' hs => redelegate_recT hs)
+  | withdraw d v rw => exact keep _ (fun s' hs => withdraw_recT hs)
+  | setWithdraw d w => exact h.of_recT rfl
+  | submit x dep => exact keep _ (fun s' hs => submit_recT hs)
+  | deposit x id amt => exact keep _ (fun s' hs => deposit_recT hs)
+  | vote x id => exact keep _ (fun s' hs => vote_recT hs)
+  | block dt => simp only [step]; exact h.of_recT (endBlock_recT s dt)
+  | setPeriods dp vp => exact h.of_recT rfl
+  | setUnbond n => exact h.of_recT rfl
+  | migrate f t sg =>
+    simp only [step]
+    cases hm : migrate cfg s f t sg with
+    | error e => exact h
+    | ok s' =>
+      obtain ⟨hne, _, hf, ht, _, _, _, rfl⟩ := migrate_ok_inv hm
+      have hx : recT (stakingExecute cfg (bankExecute cfg s f t) f t) = recT s :=
+        (stakingExecute_recT cfg _ f t).trans rfl
+      have e1 : (stakingExecute cfg (bankExecute cfg s f t) f t).recs = s.recs := congrArg (·.1) hx
+      have e2 : (stakingExecute cfg (bankExecute cfg s f t) f t).dirFrom = s.dirFrom := congrArg (·.2.1) hx
+      have e3 : (stakingExecute cfg (bankExecute cfg s f t) f t).dirTo = s.dirTo := congrArg (·.2.2) hx
+      refine h.set f t hne hf ht (s' := moved s f t) ?_ ?_ ?_
+      · show put (put _ f (true, t)) t (false, f) = _; rw [e1]
+      · show ins _ f = _; rw [e2]
+      · show ins _ t = _; rw [e3]
+
+/-- the pairing holds after every history (migrations included) from a state where it holds -/
+theorem recInv_run {s : State} (h : RecInv s) (ops : List Op) : RecInv (run cfg s ops) := by
+  induction ops generalizing s with
+  | nil => exact h
+  | cons op ops ih => exact ih (recInv_step h op)
+
+theorem recInv_base (s : State) (h1 : s.recs = []) (h2 : s.dirFrom = []) (h3 : s.dirTo = []) : RecInv s := by
+  refine ⟨?_, ?_, ?_⟩
+  · intro a b fl hab; rw [h1, get_nil] at hab; cases hab
+  · intro a; rw [h2, h1]; simp [get_nil]
+  · intro a; rw [h3, h1]; simp [get_nil]
+
+/-- `ExportGenesis` as read from the code exports exactly the records stored under their source -/
+theorem export_spec (s : State) (r : Addr × Addr) :
+    r ∈ exportGenesis cfg s ↔ get s.recs r.1 = some (true, r.2) := by
+  unfold exportGenesis
+  rw [cfg_from_code]
+  simp only [beq_self_eq_true, ↓reduceIte, Bool.false_eq_true, List.mem_map, List.mem_filter, visible, beq_iff_eq]
+  constructor
+  · rintro ⟨p, ⟨⟨_, hg⟩, hfl⟩, rfl⟩
+    obtain ⟨a, fl, b⟩ := p
+    simp only at hfl hg ⊢
+    subst hfl; exact hg
+  · intro hg
+    exact ⟨(r.1, true, r.2), ⟨⟨get_some_mem _ _ _ hg, hg⟩, rfl⟩, rfl⟩
+
+/-- `InitGenesis` as read from the code: the fold of `SetMigrateRecord` over the exported records -/
+theorem import_fields (s : State) (E : List (Addr × Addr)) :
+    (initGenesis cfg s E).recs = impRecs [] E ∧
+    (initGenesis cfg s E).dirFrom = (E.map (·.1)).foldl ins [] ∧
+    (initGenesis cfg s E).dirTo = (E.map (·.2)).foldl ins [] := by
+  have hi : cfg.gImportSets = true := by rw [cfg_from_code]
+  unfold initGenesis
+  simp only [hi, ↓reduceIte]
+  have gen : ∀ s0 : State,
+      (E.foldl (fun s r => setRecord cfg s r.1 r.2) s0).recs = impRecs s0.recs E ∧
+      (E.foldl (fun s r => setRecord cfg s r.1 r.2) s0).dirFrom = (E.map (·.1)).foldl ins s0.dirFrom ∧
+      (E.foldl (fun s r => setRecord cfg s r.1 r.2) s0).dirTo = (E.map (·.2)).foldl ins s0.dirTo := by
+    induction E with
+    | nil => intro s0; exact ⟨rfl, rfl, rfl⟩
+    | cons r E ih =>
+      intro s0
+      simp only [List.foldl_cons, List.map_cons, impRecs]
+      have := ih (setRecord cfg s0 r.1 r.2)
+      rw [setRecord_cfg] at this ⊢
+      exact this
+  exact gen _
+
+/-- **genesis_round_trip**: in every state whose records are paired (every reachable state: `recInv_run`), a chain restarted
+from its own exported genesis — `ExportGenesis` then `InitGenesis` as read from the code — finds, for every address, the same
+record and the same direction flags as before; nothing else is touched and the pairing holds again -/
+theorem genesis_round_trip {s : State} (h : RecInv s) (a : Addr) :
+    get (genesisRoundTrip cfg s).recs a = get s.recs a ∧
+    (a ∈ (genesisRoundTrip cfg s).dirFrom ↔ a ∈ s.dirFrom) ∧
+    (a ∈ (genesisRoundTrip cfg s).dirTo ↔ a ∈ s.dirTo) := by
+  obtain ⟨e1, e2, e3⟩ := import_fields s (exportGenesis cfg s)
+  unfold genesisRoundTrip
+  rw [e1, e2, e3]
+  refine ⟨import_export_get h _ (export_spec s) a, ?_, ?_⟩
+  · rw [mem_foldl_ins, h.dirF]
+    simp only [List.mem_map, List.not_mem_nil, or_false]
+    constructor
+    · rintro ⟨r, hr, rfl⟩; exact ⟨r.2, (export_spec s r).mp hr⟩
+    · rintro ⟨b, hb⟩; exact ⟨(a, b), (export_spec s (a, b)).mpr hb, rfl⟩
+  · rw [mem_foldl_ins, h.dirT]
+    simp only [List.mem_map, List.not_mem_nil, or_false]
+    constructor
+    · rintro ⟨r, hr, rfl⟩
+      have := h.pair _ _ _ ((export_spec s r).mp hr)
+      exact ⟨r.1, this⟩
+    · rintro ⟨b, hb⟩
+      have := h.pair _ _ _ hb
+      exact ⟨(b, a), (export_spec s (b, a)).mpr this, rfl⟩
+
+theorem genesis_round_trip_inv {s : State} (h : RecInv s) : RecInv (genesisRoundTrip cfg s) := by
+  refine ⟨?_, ?_, ?_⟩
+  · intro a b fl hab
+    rw [(genesis_round_trip h a).1] at hab
+    rw [(genesis_round_trip h b).1]
+    exact h.pair a b fl hab
+  · intro a; rw [(genesis_round_trip h a).2.1, (genesis_round_trip h a).1]; exact h.dirF a
+  · intro a; rw [(genesis_round_trip h a).2.2, (genesis_round_trip h a).1]; exact h.dirT a
+
+/-- **never_reused_across_restart**: once a migration of `frm` to `to` was accepted, then after any later history, a restart
+of the chain from its exported genesis, and any further history, every migration whose source or target is `frm` or `to`
+is still rejected (`s0`: any state with paired records, e.g. the empty module store — `recInv_base`) -/
+theorem never_reused_across_restart {s0 : State} (h0 : RecInv s0) (before : List Op) {s' : State} {frm to : Addr}
+    {sigOk : Bool} (h : migrate cfg (run cfg s0 before) frm to sigOk = .ok s')
+    (later further : List Op) (a b : Addr) (sg : Bool) (hab : a = frm ∨ a = to ∨ b = frm ∨ b = to) :
+    ∀ s'', migrate cfg (run cfg (genesisRoundTrip cfg (run cfg s' later)) further) a b sg ≠ .ok s'' := by
+  intro s'' h2
+  have hs' : RecInv s' := by
+    have := recInv_step (recInv_run h0 before) (.migrate frm to sigOk)
+    simp only [step, h] at this
+    exact this
+  have hl := recInv_run hs' later
+  obtain ⟨hne, _, _, _, _, _, _, rfl⟩ := migrate_ok_inv h
+  have hf : (get (moved (run cfg s0 before) frm to).recs frm).isSome = true := by
+    show (get (put (put _ frm (true, to)) to (false, frm)) frm).isSome = true
+    rw [get_put_ne _ _ _ _ hne, get_put_eq]; rfl
+  have ht : (get (moved (run cfg s0 before) frm to).recs to).isSome = true := by
+    show (get (put (put _ frm (true, to)) to (false, frm)) to).isSome = true
+    rw [get_put_eq]; rfl
+  have hf' := records_kept_run _ later frm hf
+  have ht' := records_kept_run _ later to ht
+  rw [← (genesis_round_trip hl frm).1] at hf'
+  rw [← (genesis_round_trip hl to).1] at ht'
+  have hf'' := records_kept_run _ further frm hf'
+  have ht'' := records_kept_run _ further to ht'
+  obtain ⟨_, _, ha, hb, _⟩ := migrate_ok_inv h2
+  rcases hab with rfl | rfl | rfl | rfl
+  · rw [ha] at hf''; cases hf''
+  · rw [ha] at ht''; cases ht''
+  · rw [hb] at hf''; cases hf''
+  · rw [hb] at ht''; cases ht''
+
+/-- non-vacuity: the empty module store is paired; the migration of 1 to 11 is accepted in `exState`, and after a restart
+from the exported genesis both records and both direction flags are there again and the same pair is refused -/
+example : RecInv exBase := recInv_base exBase rfl rfl rfl
+example : ∃ s', migrate cfg exState 1 11 true = .ok s' ∧
+    exportGenesis cfg s' = [(1, 11)] ∧
+    get (genesisRoundTrip cfg s').recs 1 = some (true, 11) ∧ get (genesisRoundTrip cfg s').recs 11 = some (false, 1) ∧
+    (genesisRoundTrip cfg s').dirFrom = [1] ∧ (genesisRoundTrip cfg s').dirTo = [11] ∧
+    (match migrate cfg (genesisRoundTrip cfg s') 1 12 true with | .error .migrated => true | _ => false) = true ∧
+    (match migrate cfg (genesisRoundTrip cfg s') 2 11 true with | .error .migrated => true | _ => false) = true :=
+  ⟨_, rfl, by decide, by decide, by decide, by decide, by decide, by decide, by decide⟩
 
 end FxVerif.Props.C14
